@@ -16,7 +16,7 @@
 (*   obs   st                    projection only                                                            *)
 (* st is optional on every event ("nost": 1 when absent).                  *)
 (***************************************************************************)
-EXTENDS NodeFlow, Track, Dispatch, LowLevel, Bytes, Json, IOUtils, TLC
+EXTENDS NodeFlow, Track, Dispatch, LowLevel, Config, Bytes, Json, IOUtils, TLC
 
 VARIABLES l, cap, cfg, ts, uq, held, bootout, bootms, bootinfo
 ttvars == <<nodes, now, seqOn, ghost, l, cap, cfg, ts, uq, held, bootout, bootms, bootinfo>>
@@ -187,6 +187,12 @@ TObs == /\ IsEv("obs")
         /\ StOk(ts)
         /\ UNCHANGED <<nodes, now, seqOn, ghost, cap, cfg, ts, uq, held, bootout, bootms, bootinfo>>
 
+(* the enumeration getters at any later moment: exactly the declared entities, the connected ones according to the
+   allocation table as it is now (node-table notices change it), the trains that are on the track now *)
+TLists == /\ IsEv("lists")
+          /\ ListsOkT(cfg, ts.conn, {t \in DOMAIN ts.trn : ts.trn[t].on = 1}, Ev.lists)
+          /\ UNCHANGED <<nodes, now, seqOn, ghost, cap, cfg, ts, uq, held, bootout, bootms, bootinfo>>
+
 (* drain: everything the three read functions return until NULL *)
 TDrain == /\ IsEv("drain")
           /\ Ev.qm = uq.msg /\ Ev.qe = uq.err /\ Ev.qi = uq.int
@@ -224,7 +230,7 @@ TStop == /\ IsEv("stop")
                /\ ghost' = sa.g
          /\ UNCHANGED <<now, seqOn, cap, cfg, ts, uq, held, bootout, bootms, bootinfo>>
 
-TNext == TBootWire \/ TBootInfo \/ TBoot \/ THold \/ THeld \/ TStop \/ TStart \/ TUp \/ THl \/ TLl \/ TTick \/ TFlush \/ TObs \/ TDrain \/ TRead
+TNext == TBootWire \/ TBootInfo \/ TBoot \/ THold \/ THeld \/ TStop \/ TStart \/ TUp \/ THl \/ TLl \/ TTick \/ TFlush \/ TObs \/ TLists \/ TDrain \/ TRead
 TSpec == TInit /\ [][TNext]_ttvars
 
 NotAccepted == l <= Len(Tr)
